@@ -98,7 +98,25 @@ def bind(chk: Check, tier: str, seed: int):
     for d_ in (dec, dec2):
         for s in (7, 9):
             d_.decode_basic_string(CLAIM % s)
+    # a third instance with network mapping whose discovery window has passed: source 7 never claims (its messages
+    # are returned all the same, and must carry the hash), source 9 claims another NAME than in the other instances
+    import datetime as _dt
+    import nmea2000.decoder as D
+    from ..decoderrun import Clock
+    late = NMEA2000Decoder(build_network_map=True)
+    late.decode_basic_string("2020-01-01-00:00:00.000,6,60928,9,255,8,11,22,e3,39,01,8c,50,c0")
+    orig_dt, D.datetime = D.datetime, Clock
+    Clock.offset = _dt.timedelta(minutes=11)
+    try:
+        return _bind(chk, tier, seed, wd, db, rng, dec, dec2, off, late)
+    finally:
+        D.datetime = orig_dt
+        Clock.offset = _dt.timedelta(0)
+
+
+def _bind(chk, tier, seed, wd, db, rng, dec, dec2, off, late):
     groups, meta, lines, line_ref = [], [], [], []
+    n_late = [0]
     defs = [d for d in db["defs"] if d["decodable"] and d["static"]]
     keyed = [d for d in defs if any(f["pk"] for f in d["fields"])]
     plain = [d for d in defs if not any(f["pk"] for f in d["fields"])]
@@ -123,6 +141,11 @@ def bind(chk: Check, tier: str, seed: int):
                 if o4:
                     o4["netmap"] = False
                     obs.append(o4)
+                for src in (7, 9):
+                    o5 = decode_hash(late, d, payload, src=src)
+                    if o5:
+                        obs.append(o5)
+                        n_late[0] += 1
             lines.append(corpus.basic_string(d["pgn"], payload, src=7))
             line_ref.append((len(groups), bytes(payload)))
         if len(obs) >= 2:
@@ -143,6 +166,8 @@ def bind(chk: Check, tier: str, seed: int):
                           f"{[(bytes(o['p']).hex(), o['hash'][:8]) for o in g['obs'][:4]]}", {"group": g})
     nkey = sum(1 for g, m in zip(groups, meta) if any(f["pk"] for f in next(d for d in chosen if d["id"] == m)["fields"]))
     chk.gate(nkey >= (100 if tier != "selftest" else 100), f"only {nkey} definitions with key fields were observed")
+    chk.gate(n_late[0] >= len(groups), f"only {n_late[0]} observations from the instance past its discovery window")
+    chk.add(observations_after_discovery_window=n_late[0])
     chk.add(traces_validated_against_impl=len(groups), observations=sum(len(g["obs"]) for g in groups),
             definitions_with_key_fields=nkey, second_process_observations=len(lines), evaluations=sum(len(g["obs"]) for g in groups),
             distinct_nontrivial=len(groups))
